@@ -191,6 +191,17 @@ inline void hook(int point, void* search, const void* a, const void* b)
         }
         break;
     }
+    case verif::THREAD_START:
+    case verif::GO_ENTER:
+    case verif::GO_INIT_DONE:
+    {
+        // stop_at == -2 / -3 / -4: the stop is delivered before the search thread runs go(), on entry
+        // of go(), or after its initialisation - i.e. before the iterative-deepening loop is reached
+        long long target = c.go_index == c.n_go - 1 ? c.spec->stop_at : (c.go_index == 0 ? c.spec->stop_at_first : -1);
+        long long code = point == verif::THREAD_START ? -2 : point == verif::GO_ENTER ? -3 : -4;
+        if (target == code && c.uci->search) c.uci->search->stop();
+        break;
+    }
     case verif::THREAD_END:
     {
         std::unique_lock<std::mutex> lk(c.m);
